@@ -19,17 +19,18 @@ type depFile struct {
 }
 
 type item struct {
-	Part  string // shape | ident | string | const | pkgname | enum | opcode | union | seq | import
-	Class string // hazard / shape class (stable, never a generated identifier)
-	Pos   string // position of the hazard ("" for shapes: the context is part of the class)
-	Note  string // human description (the concrete identifier / literal), messages only
-	Text  string // entry schema text
+	Part  string            // shape | ident | string | const | pkgname | enum | opcode | union | seq | import
+	Class string            // hazard / shape class (stable, never a generated identifier)
+	Pos   string            // position of the hazard ("" for shapes: the context is part of the class)
+	Note  string            // human description (the concrete identifier / literal), messages only
+	Text  string            // entry schema text
 	Files map[string]string // further files (imports), by relative name
 	Deps  []depFile         // separate mode: imported files, deepest first
 	Pkg   string            // GenerateSettings.PackageName ("" = take go_package)
 	Mode  int               // 0 separate, 1 combined
-	// DepOpts: how the imported files are generated in separate mode: "same" = same option set as the
-	// importer, "none" = all options off.
+	// DepOpts: how the imported files are generated in separate mode: "public" = the importer's option set without
+	// PrivateDefinitions (the configuration the generator documents), "same" = exactly the importer's option set,
+	// "none" = all options off.
 	DepOpts string
 	Wide    bool // judged under all 32 option sets even in the quick tier
 	Control bool // no hazard: must be accepted and must compile (guards the generators themselves)
@@ -90,6 +91,7 @@ type identClass struct {
 // true false) cannot be identifiers and are left out.
 var identClasses = []identClass{
 	{"plain", []string{"alpha", "Alpha", "zqValue"}},
+	{"lowercase-initial", []string{"alpha", "zqValue", "x"}},
 	{"go-keyword", []string{"type", "func", "range", "chan", "var", "go", "select", "default", "interface", "package", "return",
 		"switch", "case", "else", "fallthrough", "for", "goto", "if", "break", "continue", "defer"}},
 	{"go-keyword-capitalized", []string{"Type", "Func", "Range", "Map", "Struct", "Const", "Import", "Go", "If", "For", "Var", "Return", "Default"}},
@@ -104,65 +106,87 @@ var identClasses = []identClass{
 	{"import-name", []string{"io", "time", "math", "iohelp", "bebop"}},
 	{"import-name-capitalized", []string{"Io", "Time", "Math", "Iohelp", "Bebop"}},
 	{"underscore-digit", []string{"a_b", "a1", "A_", "x__y", "a_", "A1_2"}},
-	{"non-ascii", []string{"é", "Ω", "éa", "aé", "Ωmega", "naïve", "Éa", "日本"}},
+	{"non-ascii", []string{"é", "Ω", "éa", "aé", "Aé", "Ωmega", "naïve", "Naïve", "Éa", "日本"}},
 }
 
 type identPos struct {
-	pos  string
+	pos string
+	// ref: other generated code names the hazard identifier as a TYPE. Today a type whose schema name starts with a
+	// lower-case letter is declared under its exposed name but referenced under its schema name (root cause
+	// "lowercase-initial"), so lower-case hazard names are placed at referencing positions only through that class;
+	// their capitalised variants (which the private option turns into the lower-case spelling) go everywhere.
+	ref  bool
 	tmpl func(n string) string
 }
 
 // Companion names start with Zq/zq so that they never collide with a hazard name.
 var identPositions = []identPos{
-	{"struct-name", func(n string) string {
+	{"struct-name", false, func(n string) string { return "struct " + n + " {\n\tint32 zqa;\n\tstring zqs;\n}\n" }},
+	{"struct-name:referenced", true, func(n string) string {
 		return "struct " + n + " {\n\tint32 zqa;\n\tstring zqs;\n}\nstruct ZqUser {\n\t" + n + " zqf;\n\tarray[" + n + "] zql;\n\tmap[string, " + n + "] zqm;\n}\nmessage ZqUserM {\n\t1 -> " + n + " zqf;\n}\n"
 	}},
-	{"readonly-struct-name", func(n string) string {
+	{"readonly-struct-name", false, func(n string) string { return "readonly struct " + n + " {\n\tint32 zqa;\n\tstring zqs;\n}\n" }},
+	{"readonly-struct-name:referenced", true, func(n string) string {
 		return "readonly struct " + n + " {\n\tint32 zqa;\n\tstring zqs;\n}\nstruct ZqUser {\n\t" + n + " zqf;\n}\n"
 	}},
-	{"message-name", func(n string) string {
+	{"message-name", false, func(n string) string { return "message " + n + " {\n\t1 -> int32 zqa;\n\t2 -> string zqs;\n}\n" }},
+	{"message-name:referenced", true, func(n string) string {
 		return "message " + n + " {\n\t1 -> int32 zqa;\n\t2 -> string zqs;\n}\nstruct ZqUser {\n\t" + n + " zqf;\n\tarray[" + n + "] zql;\n}\n"
 	}},
-	{"union-name", func(n string) string {
+	{"union-name", false, func(n string) string {
+		return "union " + n + " {\n\t1 -> struct ZqBrA {\n\t\tint32 zqa;\n\t}\n\t2 -> message ZqBrB {\n\t\t1 -> string zqs;\n\t}\n}\n"
+	}},
+	{"union-name:referenced", true, func(n string) string {
 		return "union " + n + " {\n\t1 -> struct ZqBrA {\n\t\tint32 zqa;\n\t}\n\t2 -> message ZqBrB {\n\t\t1 -> string zqs;\n\t}\n}\nstruct ZqUser {\n\t" + n + " zqf;\n}\n"
 	}},
-	{"union-branch-struct-name", func(n string) string {
+	// a union always names its branch records as types
+	{"union-branch-struct-name", true, func(n string) string {
 		return "union ZqU {\n\t1 -> struct " + n + " {\n\t\tint32 zqa;\n\t}\n\t2 -> message ZqBrB {\n\t\t1 -> string zqs;\n\t}\n}\n"
 	}},
-	{"union-branch-message-name", func(n string) string {
+	{"union-branch-message-name", true, func(n string) string {
 		return "union ZqU {\n\t1 -> struct ZqBrA {\n\t\tint32 zqa;\n\t}\n\t2 -> message " + n + " {\n\t\t1 -> string zqs;\n\t}\n}\n"
 	}},
-	{"struct-field", func(n string) string {
+	{"struct-field", false, func(n string) string {
 		return "struct ZqS {\n\tint32 " + n + ";\n\tarray[string] zql;\n\tmap[string, int32] zqm;\n}\n"
 	}},
-	{"readonly-struct-field", func(n string) string {
+	{"readonly-struct-field", false, func(n string) string {
 		return "readonly struct ZqS {\n\tint32 " + n + ";\n\tarray[string] zql;\n\tmap[string, int32] zqm;\n}\n"
 	}},
-	{"message-field", func(n string) string {
+	{"message-field", false, func(n string) string {
 		return "message ZqM {\n\t1 -> int32 " + n + ";\n\t2 -> array[string] zql;\n\t3 -> map[string, int32] zqm;\n}\n"
 	}},
-	{"union-branch-struct-field", func(n string) string {
+	{"union-branch-struct-field", false, func(n string) string {
 		return "union ZqU {\n\t1 -> struct ZqBrA {\n\t\tint32 " + n + ";\n\t\tarray[string] zql;\n\t}\n}\n"
 	}},
-	{"union-branch-message-field", func(n string) string {
+	{"union-branch-message-field", false, func(n string) string {
 		return "union ZqU {\n\t1 -> message ZqBrB {\n\t\t1 -> int32 " + n + ";\n\t\t2 -> array[string] zql;\n\t}\n}\n"
 	}},
-	{"enum-name", func(n string) string {
+	{"enum-name", false, func(n string) string { return "enum " + n + " {\n\tZqA = 1;\n\tZqB = 2;\n}\n" }},
+	{"enum-name:referenced", true, func(n string) string {
 		return "enum " + n + " {\n\tZqA = 1;\n\tZqB = 2;\n}\nstruct ZqUser {\n\t" + n + " zqf;\n\tmap[string, " + n + "] zqm;\n}\nmessage ZqUserM {\n\t1 -> " + n + " zqf;\n}\n"
 	}},
-	{"enum-member", func(n string) string {
+	{"enum-member", false, func(n string) string {
 		return "enum ZqE {\n\t" + n + " = 1;\n\tZqB = 2;\n}\nstruct ZqUser {\n\tZqE zqf;\n}\n"
 	}},
-	{"const-name", func(n string) string {
+	{"const-name", false, func(n string) string {
 		return "const int32 " + n + " = 1;\nconst string zqc = \"x\";\nstruct ZqS {\n\tint32 zqa;\n}\n"
 	}},
 }
+
+func startsLowerASCII(n string) bool { return n != "" && n[0] >= 'a' && n[0] <= 'z' }
 
 func identItems() []*item {
 	var out []*item
 	for _, cl := range identClasses {
 		for _, n := range cl.names {
 			for _, p := range identPositions {
+				lower := cl.class == "lowercase-initial"
+				if lower && !p.ref {
+					continue // this class exists only at referencing positions
+				}
+				if !lower && p.ref && startsLowerASCII(n) {
+					continue // see identPos.ref
+				}
 				out = append(out, &item{Part: "ident", Class: cl.class, Pos: p.pos, Note: "identifier " + n, Text: p.tmpl(n), Pkg: defaultPkg,
 					Wide: true, Control: cl.class == "plain"})
 			}
@@ -234,6 +258,9 @@ func identItems() []*item {
 		for _, n := range f.names {
 			for _, b := range f.bases {
 				for _, d := range defs {
+					if d.pos == "union-branch-name" && startsLowerASCII(n) {
+						continue // see identPos.ref
+					}
 					add(f.class, d.pos, fmt.Sprintf("%s next to %s ZqS", n, b), base[b]+d.tmpl(n))
 				}
 			}
@@ -248,6 +275,9 @@ func identItems() []*item {
 	// enum member constants are <Enum>_<Member>
 	for _, n := range []string{"ZqE_A", "zqE_A"} {
 		for _, d := range defs {
+			if d.pos == "union-branch-name" && startsLowerASCII(n) {
+				continue // see identPos.ref
+			}
 			add("gen-const-E_M", d.pos, n+" next to enum ZqE { A }", "enum ZqE {\n\tA = 1;\n}\n"+d.tmpl(n))
 		}
 	}
@@ -287,7 +317,7 @@ var lineCommentHazards = []strHazard{
 	{"plain", " hello world"}, {"empty", ""}, {"backslash-last", ` ends in a backslash \`}, {"star-slash", " a*/b"}, {"slash-star", " a /* b"},
 	{"back-quote", " a`b"}, {"non-ascii", " aéΩ日b"}, {"quote", ` a"b`}, {"raw-tab", " a\tb"}, {"esc-n", ` a\nb`}, {"raw-cr", " a\rb"},
 	{"tag-like-unquoted", `[tag(db:unquoted)]`}, {"tag-like-empty", `[tag()]`}, {"percent", " 100%d %s %ASGN %!"}, {"extra-slash", "/ doc"},
-	{"raw-nul", " a\x00b"}, {"raw-invalid-utf8", " a\xffb"}, {"raw-bom", " a\uFEFFb"}, {"go-directive-generate", "go:generate echo"}, {"go-directive-noinline", "go:noinline"}, {"go-directive-embed", "go:embed x.txt"}, {"go-directive-build", "go:build ignore"}, {"line-directive", "line other.go:1"}, {"only-spaces", "   "},
+	{"raw-nul", " a\x00b"}, {"raw-invalid-utf8", " a\xffb"}, {"raw-bom", " a\uFEFFb"}, {"go-directive-generate", "go:generate echo"}, {"go-directive-noinline", "go:noinline"}, {"go-directive-embed", "go:embed x.txt"}, {"go-directive-build", "go:build ignore"}, {"go-directive-linkname", "go:linkname a b"}, {"go-directive-nosplit-with-text", "go:nosplit because"}, {"go-directive-cgo", "go:cgo_ldflag \"-lfoo\""}, {"go-directive-systemstack", "go:systemstack"}, {"go-directive-unknown-verb", "go:noinlinex"}, {"go-directive-after-space", " go:noinline"}, {"line-directive", "line other.go:1"}, {"only-spaces", "   "},
 }
 
 // contents of /* */ comments
@@ -295,7 +325,7 @@ var blockCommentHazards = []strHazard{
 	{"plain", " hello world "}, {"empty", ""}, {"multi-line", "\n * first\n * second\n "}, {"slash-slash", " a // b "}, {"slash-star", " a /* b "},
 	{"back-quote", " a`b "}, {"non-ascii", " aéΩ日b "}, {"raw-crlf", " a\r\n b "}, {"backslash-last", ` ends in a backslash \`}, {"percent", " 100%d %s %ASGN %! "},
 	{"raw-nul", " a\x00b "}, {"raw-invalid-utf8", " a\xffb "}, {"raw-bom", " a\uFEFFb "}, {"quote", ` a"b `}, {"star", "*"}, {"blank-line-inside", " a\n\n b "},
-	{"tag-like-line", "\n[tag(json:\"x\")]\n"},
+	{"tag-like-line", "\n[tag(json:\"x\")]\n"}, {"go-directive-noinline", "go:noinline"}, {"go-directive-noinline-second-line", " doc\ngo:noinline\n"},
 }
 
 // the text inside //[tag( ... )]
@@ -318,15 +348,21 @@ var commentSites = []struct {
 	{"union", func(a func(string) string) string {
 		return a("") + "union ZqU {\n\t1 -> struct ZqBrA {\n\t\tint32 zqa;\n\t}\n}\n"
 	}},
-	{"const", func(a func(string) string) string { return a("") + "const int32 zqc = 1;\nstruct ZqS {\n\tint32 zqa;\n}\n" }},
-	{"struct-field", func(a func(string) string) string { return "struct ZqS {\n" + a("\t") + "\tint32 zqa;\n\tstring zqs;\n}\n" }},
+	{"const", func(a func(string) string) string {
+		return a("") + "const int32 zqc = 1;\nstruct ZqS {\n\tint32 zqa;\n}\n"
+	}},
+	{"struct-field", func(a func(string) string) string {
+		return "struct ZqS {\n" + a("\t") + "\tint32 zqa;\n\tstring zqs;\n}\n"
+	}},
 	{"readonly-struct-field", func(a func(string) string) string {
 		return "readonly struct ZqS {\n" + a("\t") + "\tint32 zqa;\n\tstring zqs;\n}\n"
 	}},
 	{"message-field", func(a func(string) string) string {
 		return "message ZqM {\n" + a("\t") + "\t1 -> int32 zqa;\n\t2 -> string zqs;\n}\n"
 	}},
-	{"enum-member", func(a func(string) string) string { return "enum ZqE {\n" + a("\t") + "\tA = 1;\n\tB = 2;\n}\nstruct ZqS {\n\tZqE zqf;\n}\n" }},
+	{"enum-member", func(a func(string) string) string {
+		return "enum ZqE {\n" + a("\t") + "\tA = 1;\n\tB = 2;\n}\nstruct ZqS {\n\tZqE zqf;\n}\n"
+	}},
 	{"union-branch", func(a func(string) string) string {
 		return "union ZqU {\n" + a("\t") + "\t1 -> struct ZqBrA {\n\t\tint32 zqa;\n\t}\n\t2 -> message ZqBrB {\n\t\t1 -> string zqs;\n\t}\n}\n"
 	}},
@@ -547,7 +583,7 @@ func enumItems() []*item {
 			{"hex", "\tA = 0x1;\n\tB = 0x7f;\n", ""},
 			{"deprecated-member", "\t[deprecated(\"use B\")]\n\tA = 1;\n\tB = 2;\n", ""},
 			{"doc-comments", "\t// doc A\n\tA = 1;\n\t/* doc B */\n\tB = 2;\n", "// doc of the enum\n"},
-			{"flags", "\tNone = 0;\n\tA = 1;\n\tB = 2;\n\tC = 1 << 2;\n\tAB = A | B;\n\tAll = A | B | C;\n\tMasked = All & 3;\n\tShr = 64 >> 2;\n\tParen = (1 << 3) | (1 << 4);\n", "[flags]\n"},
+			{"flags", "\tNone = 0;\n\tA = 1;\n\tB = 2;\n\tC = 1 << 2;\n\tAB = A | B;\n\tAll = A | B | C;\n\tMasked = All & 6;\n\tShr = 64 >> 2;\n\tParen = (1 << 3) | (1 << 4);\n", "[flags]\n"},
 			{"flags-deprecated-doc", "\t// doc\n\t[deprecated(\"x\")]\n\tA = 1;\n\tB = 1 << 1;\n", "// doc\n[flags]\n"},
 			{"flags-top-bit", "\tTop = 1 << " + fmt.Sprint(w-1) + ";\n", "[flags]\n"},
 		}
@@ -715,7 +751,7 @@ func unionItems() []*item {
 	add("message-index:255", "message", "message field index 255", "message ZqM {\n\t255 -> int32 zqa;\n}\n")
 	add("message-index:descending", "message", "message fields written 3, 2, 1", "message ZqM {\n\t3 -> int32 c;\n\t2 -> string b;\n\t1 -> array[string] a;\n}\n")
 	add("deprecated-struct-field", "struct", "deprecated field in a struct", "struct ZqS {\n\t[deprecated(\"old\")]\n\tint32 zqa;\n\tstring zqs;\n}\n")
-	add("deprecated-all-message-fields", "message", "every field of a message deprecated", "message ZqM {\n\t[deprecated(\"a\")]\n\t1 -> int32 zqa;\n\t[deprecated(\"b\")]\n\t2 -> map[string, array[string]] zqm;\n\t[deprecated(\"c\")]\n\t3 -> array[ZqM] zql;\n}\n")
+	add("deprecated-all-message-fields", "message", "every field of a message deprecated", "message ZqM {\n\t[deprecated(\"a\")]\n\t1 -> int32 zqa;\n\t[deprecated(\"b\")]\n\t2 -> map[string, string] zqm;\n\t[deprecated(\"c\")]\n\t3 -> array[ZqM] zql;\n}\n")
 	return out
 }
 
@@ -803,7 +839,7 @@ func importItems() []*item {
 				label   string
 				mode    int
 				depOpts string
-			}{{"separate:importee-same-options", 0, "same"}, {"separate:importee-default-options", 0, "none"}, {"combined", 1, ""}} {
+			}{{"separate", 0, "public"}, {"combined", 1, ""}} {
 				k++
 				p := fmt.Sprintf("%s/i%d/dep", impRoot, k)
 				files := map[string]string{"dep.bop": gp(p) + depDefs}
@@ -816,6 +852,7 @@ func importItems() []*item {
 		}
 	}
 	// special import situations
+	spDepOpts := "public"
 	sp := func(class, pos, note, main string, files map[string]string, depNames []string, mode int, pkg string) {
 		k++
 		var deps []depFile
@@ -837,11 +874,19 @@ func importItems() []*item {
 		}
 		depOpts := ""
 		if mode == 0 {
-			depOpts = "same"
+			depOpts = spDepOpts
 		}
 		newItem(class, pos, note, strings.ReplaceAll(main, "$K", fmt.Sprint(k)), nf, deps, mode, depOpts, pkg)
 	}
 	dep := gp(impRoot+"/i$K/dep") + depDefs
+	// option sets of importer and importee that differ (separate mode only). The generator documents that an imported
+	// package is assumed not to be private; unsafe methods of the importee are called when the importer is unsafe.
+	allTypes := "import \"./dep.bop\"\nstruct ZqS {\n\tImpEnum e;\n\tImpFixed f;\n\tImpVar v;\n\tImpRO r;\n\tImpMsg m;\n\tImpUnion u;\n\tarray[ImpFixed] l;\n}\nmessage ZqM {\n\t1 -> ImpFixed f;\n\t2 -> ImpEnum e;\n}\n"
+	spDepOpts = "same"
+	sp("separate:importee-generated-with-importer-options-incl-private", "struct-field", "imported file generated with exactly the importer's options (also private)", allTypes, map[string]string{"dep.bop": dep}, []string{"dep.bop"}, 0, defaultPkg)
+	spDepOpts = "none"
+	sp("separate:importee-generated-with-default-options", "struct-field", "imported file generated with all options off", allTypes, map[string]string{"dep.bop": dep}, []string{"dep.bop"}, 0, defaultPkg)
+	spDepOpts = "public"
 	for mode, mname := range []string{"separate", "combined"} {
 		sp(mname+":import-unused", "file", "an import none of whose types is used", "import \"./dep.bop\"\nstruct ZqS {\n\tint32 a;\n}\n", map[string]string{"dep.bop": dep}, []string{"dep.bop"}, mode, defaultPkg)
 		sp(mname+":import-only", "file", "a file that only imports", "import \"./dep.bop\"\n", map[string]string{"dep.bop": dep}, []string{"dep.bop"}, mode, defaultPkg)
